@@ -637,6 +637,10 @@ func runC07(c *engine.Ctx) {
 
 	// ---- R8 ----
 	checkCredentialPlumbing(c, "R8")
+
+	// ---- R9 the route tables are read under their lock (shared with C16.R1): a lookup that races with a registration
+	// can miss the protected route, and "no route" means "no credential check" ----
+	c16MapsRule(c, engine.AnalyzeLocks(c.P), "R9")
 }
 
 // checkCredentialPlumbing: every vhost.RouteConfig the server builds for a proxy takes Username from the proxy's
